@@ -73,6 +73,49 @@ mod inner {
     #[derive(scale_info::TypeInfo)]
     pub struct Z;
 }
+// the same documented shapes under every capture_docs mode (the derive emits .docs / .docs_always / nothing)
+macro_rules! family {
+    ($m:ident $(, $attr:meta)?) => {
+        mod $m {
+            /// struct doc
+            #[derive(scale_info::TypeInfo)]
+            $(#[$attr])?
+            pub struct St {
+                /// field doc
+                pub a: u8,
+                pub b: (u16, String),
+            }
+            /// tuple struct doc
+            #[derive(scale_info::TypeInfo)]
+            $(#[$attr])?
+            pub struct Tu(
+                /// member doc
+                pub u32,
+                pub Option<bool>,
+            );
+            /// enum doc
+            #[derive(scale_info::TypeInfo)]
+            $(#[$attr])?
+            pub enum En {
+                /// documented variant with unnamed fields
+                A(u8, /** member doc */ Vec<i16>),
+                /// documented variant with named fields
+                B {
+                    /// field doc
+                    x: [u8; 4],
+                    y: Option<u64>,
+                },
+                /// documented unit variant
+                C,
+                D(i64),
+            }
+        }
+    };
+}
+family!(cap_absent);
+family!(cap_default, scale_info(capture_docs = "default"));
+family!(cap_always, scale_info(capture_docs = "always"));
+family!(cap_never, scale_info(capture_docs = "never"));
 trait Cfg { type A; }
 struct CfgImpl;
 impl Cfg for CfgImpl { type A = u32; }
@@ -88,14 +131,23 @@ include!(concat!(env!("FP_CORPUS_DIR"), "/gen_corpus.rs"));
 fn gen_corpus() -> Vec<MetaType> {
     vec![]
 }
+#[cfg(not(fp_corpus))]
+fn gen_builders() -> Vec<MetaType> {
+    vec![]
+}
 
 fn corpus() -> Vec<MetaType> {
     let mut v = base_corpus();
     v.extend(gen_corpus());
+    v.extend(gen_builders());
     v
 }
 fn base_corpus() -> Vec<MetaType> {
     vec![
+        meta_type::<cap_absent::St>(), meta_type::<cap_absent::Tu>(), meta_type::<cap_absent::En>(),
+        meta_type::<cap_default::St>(), meta_type::<cap_default::Tu>(), meta_type::<cap_default::En>(),
+        meta_type::<cap_always::St>(), meta_type::<cap_always::Tu>(), meta_type::<cap_always::En>(),
+        meta_type::<cap_never::St>(), meta_type::<cap_never::Tu>(), meta_type::<cap_never::En>(),
         meta_type::<S<E>>(), meta_type::<S<u8>>(), meta_type::<N>(), meta_type::<core::marker::PhantomData<u8>>(),
         meta_type::<inner::R<'static, u16, String>>(), meta_type::<inner::Unit>(), meta_type::<inner::Z>(), meta_type::<Assoc<CfgImpl>>(),
         meta_type::<(u8, u16, u32, u64, u128, i8, i16, i32, i64, i128, bool, char, String)>(),
